@@ -3,6 +3,7 @@
 import sys, os, shutil, json, subprocess
 cid, slug, rnd, change, needs = sys.argv[1:6]
 NOTES={4:"round 4: the author was asked for feature interactions and less-travelled entry points (re-used instances, flows with retry settings, unusual but legal values, state surviving between runs)",
+ 11:"round 11: half round (ten properties), as rounds 6-10 with ten earlier ideas per property excluded",
  10:"round 10: as rounds 6-9 (free choice, nine earlier ideas per property excluded)",
  9:"round 9: as rounds 6-8 (free choice, eight earlier ideas per property excluded)",
  8:"round 8: as rounds 6 and 7 (free choice, seven earlier ideas per property excluded)",
